@@ -241,15 +241,10 @@ Definition py_repr (s : list byte) : list byte :=
 
 Definition all_ascii (s : list byte) : bool := forallb (fun b => (Byte.to_N b <? 128)%N) s.
 
-(* ---- pickle.encode_long ----
-   nbytes = (bit_length >> 3) + 1 bytes of little-endian two's complement, minus the last byte of
-   a negative number when it is 0xff and the byte before it has its top bit set -- which, for a
-   negative x that fits nbytes, is exactly "x also fits nbytes - 1" (checked differentially) *)
+(* ---- fickle.encode_long: (bit_length >> 3) + 1 bytes of little-endian two's complement ---- *)
 Definition bit_length (z : Z) : Z := if z =? 0 then 0 else Z.log2 (Z.abs z) + 1.
 
-Definition long_nbytes (z : Z) : Z :=
-  let n0 := bit_length z / 8 + 1 in
-  if (z <? 0) && (1 <? n0) && (- 2 ^ (8 * (n0 - 1) - 1) <=? z) then n0 - 1 else n0.
+Definition long_nbytes (z : Z) : Z := bit_length z / 8 + 1.
 
 Definition encode_long (z : Z) : list byte :=
   if z =? 0 then []
